@@ -153,7 +153,7 @@ class TypedNode(Node):
         """Return true if this node has one or more children."""
         if kind is ANY_KIND:
             return bool(self._children)
-        return len(self.get_children(kind)) > 1
+        return len(self.get_children(kind)) > 0
 
     def get_siblings(self, *, add_self=False, any_kind=False) -> list[TypedNode]:
         """Return a list of all sibling entries of self (excluding self) if any."""
@@ -186,7 +186,7 @@ class TypedNode(Node):
     def prev_sibling(self, *, any_kind=False) -> TypedNode | None:
         """Return predecessor `of the same kind` or None if node is first sibling."""
         pc = self._parent._children
-        own_idx = pc.index(self)
+        own_idx = Node.get_index(self)
         if own_idx > 0:
             for idx in range(own_idx - 1, -1, -1):
                 n = pc[idx]
@@ -198,9 +198,9 @@ class TypedNode(Node):
         """Return successor `of the same kind` or None if node is last sibling."""
         pc = self._parent._children
         pc_len = len(pc)
-        own_idx = pc.index(self)
+        own_idx = Node.get_index(self)
 
-        if own_idx < pc_len - 2:
+        if own_idx < pc_len - 1:
             for idx in range(own_idx + 1, pc_len):
                 n = pc[idx]
                 if any_kind or n._kind == self._kind:
@@ -219,8 +219,12 @@ class TypedNode(Node):
         if any_kind:
             kc = self._parent._children
         else:
-            kc = self.parent.get_children(self.kind)
-        return kc.index(self)
+            kc = self._parent.get_children(self.kind)
+        # NOTE: `list.index()` checks for equality ('=='), not identity
+        for i, n in enumerate(kc):
+            if n is self:
+                return i
+        raise ValueError(f"{self} is not a child of its parent")
 
     def is_first_sibling(self, *, any_kind=False) -> bool:
         """Return true if this node is the first sibling, i.e. the first child
@@ -685,7 +689,8 @@ class TypedTree(Tree):
 
     def iter_by_type(self, kind: str | ANY_KIND) -> Iterator[TypedNode]:
         if kind == ANY_KIND:
-            return self.iterator()
+            yield from self.iterator()
+            return
         for n in self.iterator():
             if n._kind == kind:
                 yield n
